@@ -12,6 +12,7 @@ implementation alone), and every variant is also compared with the proved model 
 (the iteration orders are read back from the live object; states go through a numbering).  compute_SCCs and
 get_reachable_set_from are compared in the same way as sets of sets."""
 from common import *
+import re
 from mccheck import *
 import c06_worker as W
 from props_c04 import pmap_chunks, n_jobs, tcount
@@ -236,6 +237,73 @@ def order_sig(o):
     return json.dumps([o.get('states_order'), o.get('succ_order'), o.get('label_order')])
 
 
+def fair_atom_renaming(R):
+    """atom renaming WITH fairness constraints: the same structure (int states, same insertion order - so the known
+    order-sensitivity of the coded fair set, KF-C15-a, cannot interfere) is presented with its atoms consistently
+    renamed, in K and in f, in particular to names that look like the checkers' fresh fair labels (fair, fair0, ...);
+    modelcheck(K, f, F=F) must return the same set.  Both answers are also compared with the faithful fair model."""
+    import mccheck
+    rng = random.Random(R.seed + 6)
+    cases = []
+    for i in range(900 if R.thorough else 110):
+        aps = ('p', 'q')
+        kd = rand_kripke(rng, rng.randint(2, 5), aps)
+        if i % 3 == 0:          # make fair components likely: self loops everywhere
+            kd['R'] = sorted(set(kd['R']) | {(s, s) for s in kd['S']})
+        F = [sorted(rng.sample(kd['S'], rng.randint(1, len(kd['S'])))) for _ in range(rng.randint(0, 2))]
+        pool = ['fair', 'fair0', 'fair1', 'x_fair', 'Fair'] + fresh_names(rng, 2, avoid=aps)
+        tgt = rng.sample(pool, 2)
+        if rng.random() < 0.7 and 'fair' not in tgt:
+            tgt[rng.randrange(2)] = 'fair'
+        sigma = dict(zip(aps, tgt))
+        kd2 = dict(kd)
+        kd2['L'] = {s: [sigma[a] for a in ls] for s, ls in kd['L'].items()}
+        cases.append((kd, kd2, F, sigma, gen_formulas(rng, aps)))
+    cmds, meta = [], []
+    for kd, kd2, F, sigma, queries in cases:
+        for logic, f in queries:
+            f2 = rename_formula(f, sigma)
+            K1, K2 = kd_py(kd), kd_py(kd2)
+            a1 = mccheck.impl_mc(logic, K1, f, F=[set(P) for P in F])
+            a2 = mccheck.impl_mc(logic, K2, f2, F=[set(P) for P in F])
+            cmds.append(mccheck.model_cmd(logic, kd_py(kd), f, F))
+            cmds.append(mccheck.model_cmd(logic, kd_py(kd2), f2, F))
+            meta.append((kd, kd2, F, sigma, logic, f, f2, tuple(a1), tuple(a2)))
+    outs = model_batch_parallel(cmds)
+    nbad = 0
+    kf = 0
+    kf_example = None
+    for i, (kd, kd2, F, sigma, logic, f, f2, a1, a2) in enumerate(meta):
+        R.evaluations += 1
+        m1, m2 = mccheck.model_obs(outs[2 * i]), mccheck.model_obs(outs[2 * i + 1])
+        if a1 != a2 and a1 == m1 and a2 == m2:
+            # known finding KF-fair-capture: the fair label is chosen fresh w.r.t. K.labels() only, so a FORMULA atom spelled
+            # fair / fair0 / ... that labels no state of K is captured by it; the faithful model predicts exactly this answer
+            used = {a for a in (g[1] for g in subformulas(f2) if g[0] == 'ap')}
+            present = {a for ls in kd2['L'].values() for a in ls}
+            if any(re.match(r'^fair[0-9]*$', a) and a not in present for a in used):
+                kf += 1
+                if kf_example is None:
+                    kf_example = (logic, kd_json(kd2), F, fstr(f2), a1, a2)
+                continue
+        if a1 != a2 or a1 != m1 or a2 != m2:
+            nbad += 1
+            if nbad <= 12:
+                R.violation('%s.modelcheck(K, f, F=F): consistently renaming the atomic propositions (%s) changes the answer%s'
+                            % (logic, sigma, '' if a1 != a2 else ' relative to the faithful fair model'),
+                            {'stream': 'atom renaming with fairness', 'logic': logic, 'kripke': kd_json(kd), 'F': F, 'sigma': sigma, 'formula': f,
+                             'formula_str': fstr(f), 'renamed_formula_str': fstr(f2), 'impl_original': a1, 'impl_renamed': a2,
+                             'model_original': m1, 'model_renamed': m2})
+        elif a1[0] == 'ok' and 0 < len(a1[1]) < len(kd['S']):
+            R.nontriv(('fair-rename', json.dumps(kd_json(kd), sort_keys=True), json.dumps(F), logic, f))
+    if kf:
+        R.known_hits['KF-fair-capture'] = kf
+        known_finding_line('C06', 'KF-fair-capture', 'with F given, a formula atom spelled like the fresh fair label (fair, fair0, ...) that labels no state of K is captured by '
+                           'that label: %d explored renamings change the answer exactly as the faithful model predicts (e.g. %s.modelcheck on %s, F=%s, %s: %s before / %s after renaming)'
+                           % ((kf,) + tuple(json.dumps(x) if not isinstance(x, str) else x for x in kf_example)))
+    R.cov['atom_renaming_with_fairness'] = {'queries': len(meta), 'differences': nbad, 'known_finding_cases': kf}
+
+
 def run(R):
     R.rule = ('(K, f) with K random (2..6 states, atoms {p,q} or {p,q,r}) or a 2-state structure and one formula per logic (CTL state formula depth <= 3, '
               'A g with g of depth 2-3 and <= 4 temporal operators, CTL* state formula depth <= 3 with nested quantifiers), each with a temporal operator. '
@@ -245,6 +313,7 @@ def run(R):
               'Compared: every variant = base answer under the correspondence (implementation alone), every variant = proved model on that very '
               'presentation, compute_SCCs / reachable sets as sets of sets. non-trivial = answer neither empty nor all states and at least one variant '
               'whose observed iteration orders (states, successor sets, label sets) differ from the base; distinct by (K, logic, f)')
+    fair_atom_renaming(R)
     rng = R.rng
     th = R.thorough
     base = gen_base(R, 5000 if th else 500)
@@ -423,6 +492,22 @@ def run(R):
 
 
 def replay(R, data):
+    if data['data'].get('stream') == 'atom renaming with fairness':
+        import mccheck
+        d = data['data']
+        kd = kd_from_json(d['kripke'])
+        f = mccheck.detuple(d['formula'])
+        f2 = rename_formula(f, d['sigma'])
+        kd2 = dict(kd)
+        kd2['L'] = {s: [d['sigma'][a] for a in ls] for s, ls in kd['L'].items()}
+        F = [set(P) for P in d['F']]
+        a1 = mccheck.impl_mc(d['logic'], kd_py(kd), f, F=F)
+        a2 = mccheck.impl_mc(d['logic'], kd_py(kd2), f2, F=F)
+        print('original:', a1)
+        print('renamed :', a2)
+        if tuple(a1) != tuple(a2):
+            R.violation('replayed', d)
+        return
     d = data['data']
     kd = kd_from_json(d['kripke'])
     rng = random.Random(0)
